@@ -60,6 +60,16 @@ func init() {
 	add("C05", "C05.errs (core.sync, signAndInsertSelfEvent, insertEventAndRunConsensus, recordHeads and setHeadAndSeq report the failures they test: pools are trimmed and heads recorded only after a reported success; shared with C11.coreerrs).", cer("C05.errs", []string{"sync", "signAndInsertSelfEvent", "insertEventAndRunConsensus", "recordHeads", "setHeadAndSeq"}, 5))
 	add("C11", "C11.coreerrs (see C05.errs: setHeadAndSeq reports a failed read of the creator's last event).", cer("C11.coreerrs", []string{"setHeadAndSeq", "insertEventAndRunConsensus"}, 2))
 	add("C10", "C10.follows (after a successful SetPeerSet the recorded set becomes core.validators on every path to a success return: the next accepted change is applied to the latest set).", as1(validatorsFollowRule, "C10.follows"))
+	rd := func(rule string) ruleFunc {
+		return func(p *Prog, r *Report) {
+			lockRule(p, r, rule, named(NODE+".core.eventDiff", NODE+".core.knownEvents", NODE+".core.getAnchorBlockWithFrame"), 5,
+				"every call site of a core method that READS the hashgraph's maps for a peer (eventDiff, knownEvents, getAnchorBlockWithFrame) holds Node.coreLock, in the calling function or in every caller",
+				"it ranges over maps of the store that the gossip routines write under the lock: in Go a concurrent map read and map write is a fatal runtime error — any peer's sync request can then stop the node", false)
+		}
+	}
+	add("C08", "C08.lock (the request handlers read the hashgraph — eventDiff, knownEvents, the anchor block and its frame — only under Node.coreLock: an unlocked read races with the gossip routines' writes to the same maps, and a concurrent map read and write aborts the process; shared with C17.lock).", rd("C08.lock"))
+	add("C17", "C17.lock (see C08.lock: a suspended node keeps answering sync requests without racing with its own state).", rd("C17.lock"))
+	add("C17", "C17.answers (each request handler calls rpc.Respond on every path to its return: a suspended node that lets a sync request through the gate does answer it).", as1(answersRule, "C17.answers"))
 	add("C01", "C01.mapcut (see C03.mapcut).", as(mapCutRule, "C01.mapcut", consensusFuncs))
 	add("C13", "C13.mapcut (see C03.mapcut, for the functions that build a frame).", as(mapCutRule, "C13.mapcut", frameFuncs))
 }
@@ -1215,4 +1225,79 @@ func errorExitFromCall(c ssa.CallInstruction, ret *ssa.Return) bool {
 		}
 	}
 	return true
+}
+
+/* ---------- C17.answers: every request handler answers (mutation scan of node_rpc.go) ---------- */
+
+// answersRule: each request handler of the node (processSyncRequest, processEagerSyncRequest, processFastForwardRequest,
+// processJoinRequest) calls RPC.Respond on every path to its return: a request that was let through the gate is answered —
+// with a response or with an error — never left to time out at the requester.
+func answersRule(p *Prog, r *Report, rule string) {
+	r.Rule(rule, 4, "every request handler calls rpc.Respond on every path to its return")
+	for _, h := range []string{"processSyncRequest", "processEagerSyncRequest", "processFastForwardRequest", "processJoinRequest"} {
+		fn := p.Func(NODE, "Node", h)
+		if fn == nil {
+			r.Anchor(rule, "node.(*Node)."+h)
+			continue
+		}
+		var sites []ssa.CallInstruction
+		for _, b := range fn.Blocks {
+			for _, in := range b.Instrs {
+				if ci, ok := in.(ssa.CallInstruction); ok {
+					if f := calleeFunc(ci.Common()); f != nil && f.Name() == "Respond" && recvNamed(f) == "RPC" {
+						sites = append(sites, ci)
+					}
+				}
+			}
+		}
+		ok, why := len(sites) > 0, ""
+		if len(sites) == 0 {
+			why = h + " never calls rpc.Respond"
+		}
+		for _, b := range fn.Blocks {
+			ret, isRet := b.Instrs[len(b.Instrs)-1].(*ssa.Return)
+			if !isRet || (b.Index != 0 && len(b.Preds) == 0) {
+				continue
+			}
+			dom := false
+			for _, c := range sites {
+				if _, isDefer := c.(*ssa.Defer); isDefer {
+					if c.Block().Dominates(b) {
+						dom = true
+					}
+					continue
+				}
+				if dominates(c, ret) {
+					dom = true
+				}
+			}
+			if !dom && len(sites) > 0 {
+				// several Respond sites on alternative paths: no path entry -> ret avoids all of them
+				avoid := map[*ssa.BasicBlock]bool{}
+				for _, c := range sites {
+					avoid[c.Block()] = true
+				}
+				reached := false
+				if !avoid[fn.Blocks[0]] {
+					if fn.Blocks[0] == b {
+						reached = true
+					}
+					forwardFrom(fn.Blocks[0], func(x *ssa.BasicBlock) bool {
+						if avoid[x] || reached {
+							return false
+						}
+						if x == b {
+							reached = true
+							return false
+						}
+						return true
+					})
+				}
+				if reached {
+					ok, why = false, "the return at "+p.ipos(ret)+" can be reached without a call to rpc.Respond: the requester is left waiting until its timeout"
+				}
+			}
+		}
+		r.Check(ok, rule, h+":always-responds", p.pos(fn.Pos()), fnName(fn), "the request is answered on every path", why)
+	}
 }
